@@ -23,7 +23,29 @@ textual part (destination types `c8 u8 i8` = `char`, `unsigned char`, `signed ch
 * `efrom K <hex>`         → `from_string<K>` of that text
 * `ein K <hex>`           → `stream >> e` repeated (at most 8 times) on that text: the enumerators, then `eof= fail= rest=<unread characters>`
 * `vec T N v1,…,vN`       → `out=<stream output of vector<T,N>> in=<read back> eof= fail= rest=`
-* `vin T N <hex>`         → `stream >> vector<T,N>` on that text: `<values|fail> eof= fail= rest=`
+* `vin T N <hex>`         → `stream >> vector<T,N>` on that text: `<the N elements afterwards, 77 = never stored> eof= fail= rest=`
+* `vecw` / `vinw`         → the same through `std::wostringstream` / `std::wistringstream`
+* `vinm T N <hex>`        → `stream >> vector<T,N>` repeated (at most 4 times) on one stream, results separated by `;`
+* `mat T R C v1,…`        → `stream << matrix<T,R,C>` (row-major values): the text as hex
+* `earr K v1,…`           → `stream << enum_::array<K,int>`: the text as hex
+* `enumw K e`, `einw K <whex>` → `enum` / `ein` through wide streams (text as 8 hex digits per character)
+* `efb N|W <hex>`, `rtb N|W v` → `extract_from_string<bool>`, round trip of `false`/`true`
+* `efstr N|W <hex>`, `rtstr N|W <hex>` → `extract_from_string<std::(w)string>`, output then extract
+* `otsl T v`              → `output_to_string_locale(v, Lg)` and back through `Lg` (`numpunct` with grouping 3, separator `,`)
+* `efsx T <hex>`          → `extract_from_string_locale<T>(text, Lx)` (`ctype<char>` with `x` as additional white space)
+* `tst N|W <hex> s1,s2,…` → steps on ONE input stream: `g` get, `p` peek, `c` clear, `xc` / `xs` / `xb` / `x<T>`
+                            `io::extract` of a character / word / bool / number, `eHH` `io::expect` of character HH, `n3` / `n5` `enum_::input`
+                            (the variable afterwards), `v1` / `v2` `>> vector<int,N>` (the elements afterwards);
+                            each prints its result and `e<eof>f<fail>`, at the end `|rest=<unread>`
+* `bst s1,s2,…`           → steps on ONE `std::stringstream`: `w.T.E.v` io::write, `r.T.E` io::read, `wc.<hex>` write_chars,
+                            `rc.N` read_chars, `p` peek, `c` clear; at the end `|rest=<unread bytes>`
+* `strconv <hex>`         → `from_std_string(_locale)` and `to_std_string(_locale)` of that text
+* `literals`              → `FCPPT_STRING_LITERAL` / `FCPPT_CHAR_LITERAL` for `char` and `wchar_t`
+* `nwlong <whex pattern> n` → narrow then widen of the pattern repeated n times: lengths, a digest of the bytes, whether it came back
+* `toy D F M C <input>`   → `narrow_locale` (D = `out`, input whex) / `widen_locale` (D = `in`, input hex) with the scripted facet
+                            `Model/C15/Toy.lean`: F = flag bits (1 stash, 2 okFull, 4 okLeft, 8 a call without output leaves to_next alone),
+                            M = `max_length()`, C = units per call (0 = unlimited)
+* `toys D F M C L`        → digest of the `toy` results for every input over {01,02,03,0f,ee,fd} up to length L
 -/
 namespace Fcppt.C15.Drv
 open Fcppt.Proto
@@ -54,7 +76,16 @@ def parseTy : String → Option IntTy
   | "u32" => some ⟨4, false⟩ | "i32" => some ⟨4, true⟩
   | "u64" => some ⟨8, false⟩ | "i64" => some ⟨8, true⟩
   | "f32" => some ⟨4, false⟩ | "f64" => some ⟨8, false⟩
+  -- `bool` (values 0, 1), `char`, `wchar_t`, `char8_t`, `char16_t`, `char32_t`, `long long`, `unsigned long long`
+  | "b1" => some ⟨1, false⟩ | "ch" => some ⟨1, true⟩ | "wc" => some ⟨4, true⟩ | "c8t" => some ⟨1, false⟩
+  | "c16" => some ⟨2, false⟩ | "c32" => some ⟨4, false⟩ | "ll" => some ⟨8, true⟩ | "ull" => some ⟨8, false⟩
+  -- `long double` (x87 extended: 10 value bytes in a 16-byte object) as the unsigned number of its 80 bits
+  | "f80" => some ⟨16, false⟩
   | _ => none
+
+/-- the values of the C++ type behind the token (a subset of the `IntTy`'s for `bool` and `long double`) -/
+def tyOk (ty : String) (t : IntTy) (v : Int) : Bool :=
+  decide (t.InRange v) && (ty != "b1" || decide (v ≤ 1)) && (ty != "f80" || decide (v < 2 ^ 80))
 
 def parseEndian : String → Option Endian
   | "L" => some .little | "B" => some .big | _ => none
@@ -79,6 +110,20 @@ def binLine (t : IntTy) (e : Endian) (v : Int) : String :=
   let cc := c >>= fun x => convert native t x e
   s!"w={showE bytesHex w} r={showE (fun p => optInt p.1) r} r2={showE (fun p => optInt p.2) r} s={showE toString s} ss={showE toString ss} c={showE toString c} cc={showE toString cc}"
 
+/-- `long double`: the padding bytes of `swap(v)` / `convert(v)` are indeterminate, only the round trips are printed -/
+def binLine80 (t : IntTy) (e : Endian) (v : Int) : String :=
+  let w := write native t [] v e
+  let r : Except Fault (Option Int × Option Int) := do
+    let out ← w
+    let (a, rest) ← read native t out e
+    let (b, _) ← read native t rest e
+    pure (a, b)
+  let ss := swap native t v >>= swap native t
+  let cc := convert native t v e >>= fun x => convert native t x e
+  -- `swap` does not depend on the byte order and belongs to the non-native case: it is only printed there
+  let ssText := if e = native then "" else s!" ss={showE toString ss}"
+  s!"w={showE bytesHex w} r={showE (fun p => optInt p.1) r} r2={showE (fun p => optInt p.2) r}{ssText} cc={showE toString cc}"
+
 def binsDigest (t : IntTy) (e : Endian) (lo : Int) (n : Nat) : String :=
   let h := (List.range n).foldl (fun h (i : Nat) => fnv h (binLine t e (lo + (i : Int)))) fnvInit
   "D " ++ hex64 h
@@ -102,20 +147,23 @@ def handleBin (toks : List String) : Option String :=
   | ["native"] => some (match native with | .little => "little" | .big => "big")
   | ["bin", ty, e, v] => do
     let t ← parseTy ty; let e ← parseEndian e; let v ← v.toInt?
-    if t.InRange v then some (binLine t e v) else none
+    if tyOk ty t v then some (if ty = "f80" then binLine80 t e v else binLine t e v) else none
   | ["bins", ty, e, lo, n] => do
     let t ← parseTy ty; let e ← parseEndian e; let lo ← lo.toInt?; let n ← n.toNat?
-    if n = 0 ∨ ¬ t.InRange lo ∨ ¬ t.InRange (lo + n - 1) then none else some (binsDigest t e lo n)
+    if n = 0 ∨ ty = "f80" ∨ ¬ tyOk ty t lo ∨ ¬ tyOk ty t (lo + n - 1) then none else some (binsDigest t e lo n)
   | ["seq", ty, e, vs] => do
     let t ← parseTy ty; let e ← parseEndian e; let vs ← parseIntList vs
-    if vs.all (fun v => t.InRange v) then some (seqLine t e vs) else none
+    if ty ≠ "f80" ∧ vs.all (fun v => tyOk ty t v) then some (seqLine t e vs) else none
   | ["rd", ty, e, hx] => do
     let t ← parseTy ty; let e ← parseEndian e; let bs ← parseHex hx
+    -- reading arbitrary bytes into a `bool` / `long double` is not a value of the type
+    if ty = "b1" ∨ ty = "f80" then none else
     some (",".intercalate (readAll t e (bs.length + 1) (bs.map toByte) []))
   | ["revmem", hx] => do
     let bs ← parseHex hx
     some (showE hexOf (reverseMem bs))
   | _ => none
+
 
 /-! ### textual part -/
 
@@ -143,42 +191,125 @@ def rtdsDigest (d : Dest) (lo : Int) (n : Nat) : String :=
 
 def str (s : String) : List Ch := s.toList.map Char.toNat
 
+
+def whexOf (l : List Nat) : String :=
+  if l.isEmpty then "-" else String.join (l.map fun c => String.join ((List.range 4).reverse.map fun i => hexByte (c / 256 ^ i % 256)))
+
+def group4 : List Nat → Option (List Nat)
+  | [] => some []
+  | a :: b :: c :: d :: r => (group4 r).map (fun t => ((((a * 256 + b) * 256 + c) * 256 + d) :: t))
+  | _ => none
+
+def parseWhex (s : String) : Option (List Nat) := (parseHex s).bind group4
+
+
 def enumNames : Nat → Option (List (List Ch))
   | 1 => some [str "test1", str "test2", str "test3"]
   | 2 => some [str "foo", str "bar", str "baz", str "fo", str "foobar"]
   | 3 => some [str "a", str "b", str "a"]
   | 4 => some [str "only"]
+  -- an empty name, a name with a blank inside, with an embedded NUL, with a leading blank, a one-letter prefix of others
+  | 5 => some [[], str "a b", [120, 0, 121], str " z", str "x", str "a"]
   | _ => none
 
 def optNat : Option Nat → String
   | some v => toString v | none => "none"
 
-def enumLine (names : List (List Ch)) (e : Nat) : String :=
+/-- `var` = the variable handed to `input` afterwards (it held `init` before): untouched on failure -/
+def enumLine (wide : Bool) (names : List (List Ch)) (e : Nat) : String :=
   match enumToString names e, enumOutput names [] e with
   | .ok n, .ok out =>
-    let (s, r) := enumInput names (IStream.ofString out)
-    s!"ts={hexOf n} fs={optNat (enumFromString names n)} out={hexOf out} in={optNat r} eof={b01 s.eof} fail={b01 s.fail}"
+    let (s, r) := (if wide then enumInputW else enumInput) names (IStream.ofString out)
+    let init := names.length - 1 - e
+    s!"ts={hexOf n} fs={optNat (enumFromString names n)} out={hexOf out} in={optNat r} var={r.getD init} eof={b01 s.eof} fail={b01 s.fail}"
   | _, _ => "bad-op"
 
-def einLoop (names : List (List Ch)) : Nat → IStream → List String → IStream × List String
+def einLoop (wide : Bool) (names : List (List Ch)) : Nat → IStream → List String → IStream × List String
   | 0, s, acc => (s, acc.reverse)
   | fuel + 1, s, acc =>
-    let (s, r) := enumInput names s
+    let (s, r) := (if wide then enumInputW else enumInput) names s
     match r with
-    | some e => einLoop names fuel s (toString e :: acc)
+    | some e => einLoop wide names fuel s (toString e :: acc)
     | none => (s, acc.reverse)
 
-def einLine (names : List (List Ch)) (text : List Ch) : String :=
-  let (s, es) := einLoop names 8 (IStream.ofString text) []
-  s!"{if es.isEmpty then "-" else ",".intercalate es} eof={b01 s.eof} fail={b01 s.fail} rest={s.buf.length}"
+def einLine (wide : Bool) (names : List (List Ch)) (text : List Ch) : String :=
+  let (s, es) := einLoop wide names 8 (IStream.ofString text) []
+  -- the variable of the last call: the enumerator read, or what it held before (`fcppt_maximum`)
+  let var := if s.fail then toString (names.length - 1) else (es.getLast?.getD "-")
+  s!"{if es.isEmpty then "-" else ",".intercalate es} var={var} eof={b01 s.eof} fail={b01 s.fail} rest={s.buf.length}"
 
 def vecTy : String → Option IntTy
   | "i32" => some ⟨4, true⟩ | "u16" => some ⟨2, false⟩ | "i64" => some ⟨8, true⟩ | "u32" => some ⟨4, false⟩
   | _ => none
 
-def vinShow (p : IStream × List Int) : String :=
+/-- the `n` elements of the vector afterwards: what was stored, `77` (the initial content) for the others -/
+def vinShow (n : Nat) (p : IStream × List Int) : String :=
   let (s, vs) := p
-  s!"{if s.fail then "fail" else intList vs} eof={b01 s.eof} fail={b01 s.fail} rest={s.buf.length}"
+  s!"{intList (vs ++ List.replicate (n - vs.length) 77)} eof={b01 s.eof} fail={b01 s.fail} rest={s.buf.length}"
+
+def vinmLoop (t : IntTy) (n : Nat) : Nat → IStream → List String → List String
+  | 0, _, acc => acc.reverse
+  | fuel + 1, s, acc =>
+    let p := vecInput t n s
+    if p.1.fail then (vinShow n p :: acc).reverse else vinmLoop t n fuel p.1 (vinShow n p :: acc)
+
+def chunksOf {α : Type} (c : Nat) : Nat → List α → List (List α)
+  | 0, _ => []
+  | r + 1, l => l.take c :: chunksOf c r (l.drop c)
+
+def optBool : Option Bool → String
+  | some b => s!"some {b01 b}" | none => "none"
+
+def optWord (f : List Nat → String) : Option (List Nat) → String
+  | some w => "some " ++ f w | none => "none"
+
+/-! #### steps on one input stream -/
+
+def numDest : String → Option IntTy
+  | "u16" => some ⟨2, false⟩ | "i16" => some ⟨2, true⟩ | "u32" => some ⟨4, false⟩ | "i32" => some ⟨4, true⟩
+  | "u64" => some ⟨8, false⟩ | "i64" => some ⟨8, true⟩ | _ => none
+
+def optCh : Option Nat → String
+  | some c => toString c | none => "none"
+
+/-- one step: the stream afterwards and the text printed, `none` = malformed step -/
+def tstStep (wide : Bool) (s : IStream) (step : String) : Option (IStream × String) :=
+  if step = "g" then let (s, r) := ioGet s; some (s, s!"g={optCh r}")
+  else if step = "p" then let (s, r) := peek s; some (s, s!"p={optCh r}")
+  else if step = "c" then some ({ s with eof := false, fail := false }, "c")
+  else if step = "xc" then
+    -- `char` is signed, `wchar_t` holds the code
+    let (s, r) := extract (.char (!wide)) s
+    let r := if wide then r.map (fun v => if v < 0 then v + 256 else v) else r
+    some (s, s!"xc={optInt r}")
+  else if step = "xs" then let (s, r) := extractString s; some (s, s!"xs={optWord (if wide then whexOf else hexOf) r}")
+  else if step = "xb" then let (s, r) := extractBool s; some (s, s!"xb={optBool r}")
+  else if step = "n3" ∨ step = "n5" then do
+    let names ← enumNames (if step = "n3" then 3 else 5)
+    let (s, r) := (if wide then enumInputW else enumInput) names s
+    -- the variable held enumerator 1 (`b`) resp. 3 (`lead`) before
+    some (s, s!"{step}={r.getD (if step = "n3" then 1 else 3)}")
+  else if step = "v1" ∨ step = "v2" then
+    let n := if step = "v1" then 1 else 2
+    let (s, vs) := vecInput ⟨4, true⟩ n s
+    some (s, s!"{step}={intList (vs ++ List.replicate (n - vs.length) 77)}")
+  else if step.startsWith "x" then do
+    let t ← numDest (step.drop 1).toString
+    let (s, r) := extract (.num t) s
+    some (s, s!"{step}={optInt r}")
+  else if step.startsWith "e" then do
+    match parseHex (step.drop 1).toString with
+    | some [c] => some (expect s c, "e")
+    | _ => none
+  else none
+
+def tstLine (wide : Bool) (text : List Ch) (steps : List String) : Option String := do
+  let (s, outs) ← steps.foldlM (fun (acc : IStream × List String) step => do
+    let (s, o) ← tstStep wide acc.1 step
+    some (s, s!"{o} e{b01 s.eof}f{b01 s.fail}" :: acc.2)) (IStream.ofString text, [])
+  some s!"{";".intercalate outs.reverse}|rest={s.buf.length}"
+
+def parseW (w : String) : Option Bool := if w = "N" then some false else if w = "W" then some true else none
 
 def handleText (toks : List String) : Option String :=
   match toks with
@@ -194,37 +325,123 @@ def handleText (toks : List String) : Option String :=
   | ["rtds", w, d, lo, n] => do
     let d ← parseDest d; let lo ← lo.toInt?; let n ← n.toNat?
     if (w = "N" ∨ w = "W") ∧ n ≠ 0 ∧ (destTy d).InRange lo ∧ (destTy d).InRange (lo + n - 1) then some (rtdsDigest d lo n) else none
+  | ["efb", w, hx] => do
+    let _ ← parseW w; let bs ← parseHex hx
+    some (optBool (extractFromStringG extractBool bs))
+  | ["rtb", w, v] => do
+    let _ ← parseW w; let v ← v.toNat?
+    if v ≤ 1 then
+      let s := putBool (v == 1)
+      some s!"s={hexOf s} r={optBool (extractFromStringG extractBool s)}"
+    else none
+  | ["efstr", w, hx] => do
+    let wide ← parseW w; let bs ← (if wide then parseWhex hx else parseHex hx)
+    some (optWord (if wide then whexOf else hexOf) (extractFromStringG extractString bs))
+  | ["rtstr", w, hx] => do
+    let wide ← parseW w; let bs ← (if wide then parseWhex hx else parseHex hx)
+    -- `os << string` writes the string itself
+    let f := if wide then whexOf else hexOf
+    some s!"s={f bs} r={optWord f (extractFromStringG extractString bs)}"
+  | ["otsl", ty, v] => do
+    let t ← numDest ty; let v ← v.toInt?
+    if t.InRange v then
+      let s := putIntGrouped v
+      some s!"s={hexOf s} r={optSome (extractFromString (.num t) (s.filter (· != 44)))}"
+    else none
+  | ["efsx", ty, hx] => do
+    let t ← numDest ty; let bs ← parseHex hx
+    some (optSome (extractFromStringX 120 t bs))
+  | ["tst", w, hx, steps] => do
+    let wide ← parseW w; let bs ← (if wide then parseWhex hx else parseHex hx)
+    tstLine wide bs (steps.splitOn ",")
   | ["enum", k, e] => do
     let names ← enumNames (← k.toNat?); let e ← e.toNat?
-    if e < names.length then some (enumLine names e) else none
+    if e < names.length then some (enumLine false names e) else none
+  | ["enumw", k, e] => do
+    let names ← enumNames (← k.toNat?); let e ← e.toNat?
+    if e < names.length then some (enumLine true names e) else none
   | ["efrom", k, hx] => do
     let names ← enumNames (← k.toNat?); let bs ← parseHex hx
     some (optNat (enumFromString names bs))
   | ["ein", k, hx] => do
     let names ← enumNames (← k.toNat?); let bs ← parseHex hx
-    some (einLine names bs)
-  | ["vec", ty, n, vs] => do
-    let t ← vecTy ty; let n ← n.toNat?; let vs ← parseIntList vs
-    if 1 ≤ n ∧ n ≤ 4 ∧ vs.length = n ∧ vs.all (fun v => t.InRange v) then
-      let out := vecOutput vs []
-      some s!"out={hexOf out} in={vinShow (vecInput t n (IStream.ofString out))}"
+    some (einLine false names bs)
+  | ["einw", k, hx] => do
+    let names ← enumNames (← k.toNat?); let bs ← parseWhex hx
+    some (einLine true names bs)
+  | ["earr", k, vs] => do
+    let names ← enumNames (← k.toNat?); let vs ← parseIntList vs
+    if vs.length = names.length ∧ vs.all (fun v => IntTy.InRange ⟨4, true⟩ v) then some (hexOf (enumArrayOutput names vs [])) else none
+  | [op, ty, n, vs] => do
+    if op = "vec" ∨ op = "vecw" then
+      let t ← vecTy ty; let n ← n.toNat?; let vs ← parseIntList vs
+      if 1 ≤ n ∧ n ≤ 4 ∧ vs.length = n ∧ vs.all (fun v => t.InRange v) then
+        let out := vecOutput vs []
+        some s!"out={hexOf out} in={vinShow n (vecInput t n (IStream.ofString out))}"
+      else none
+    else if op = "vin" ∨ op = "vinw" then
+      let t ← vecTy ty; let n ← n.toNat?; let bs ← parseHex vs
+      if 1 ≤ n ∧ n ≤ 4 then some (vinShow n (vecInput t n (IStream.ofString bs))) else none
+    else if op = "vinm" then
+      let t ← vecTy ty; let n ← n.toNat?; let bs ← parseHex vs
+      if 1 ≤ n ∧ n ≤ 4 then some (";".intercalate (vinmLoop t n 4 (IStream.ofString bs) [])) else none
     else none
-  | ["vin", ty, n, hx] => do
-    let t ← vecTy ty; let n ← n.toNat?; let bs ← parseHex hx
-    if 1 ≤ n ∧ n ≤ 4 then some (vinShow (vecInput t n (IStream.ofString bs))) else none
+  | ["mat", ty, r, c, vs] => do
+    let t ← vecTy ty; let r ← r.toNat?; let c ← c.toNat?; let vs ← parseIntList vs
+    if 1 ≤ r ∧ r ≤ 3 ∧ 1 ≤ c ∧ c ≤ 3 ∧ vs.length = r * c ∧ vs.all (fun v => t.InRange v) then
+      some (hexOf (matOutput (chunksOf c r vs) []))
+    else none
+  | ["strconv", hx] => do
+    let bs ← parseHex hx
+    some s!"f={hexOf (fromStdString bs)} t={optWord hexOf (toStdString bs)}"
+  | ["literals"] =>
+    -- the same characters in both widths: `"ab(" 'x'`
+    let l := str "ab("
+    some s!"{hexOf l} {whexOf l} {hexOf [120]} {whexOf [120]}"
   | _ => none
+
+/-! #### steps on one binary stream -/
+
+def optBytes : Option (List Byte) → String
+  | some l => bytesHex l | none => "none"
+
+def stBits (s : BStream) : String := s!"e{b01 s.eof}f{b01 s.fail}"
+
+def bstStep (s : BStream) (step : String) : Option (BStream × String) :=
+  match step.splitOn "." with
+  | ["w", ty, e, v] => do
+    let t ← parseTy ty; let e ← parseEndian e; let v ← v.toInt?
+    if ty ≠ "f80" ∧ tyOk ty t v then
+      match ioWrite native t s v e with
+      | .ok s1 => some (s1, "w")
+      | .error f => some (s, "fault:" ++ f.name)
+    else none
+  | ["r", ty, e] => do
+    let t ← parseTy ty; let e ← parseEndian e
+    if ty = "b1" ∨ ty = "f80" then none else
+    match ioRead native t s e with
+    | .ok (s1, r) => some (s1, s!"r={optInt r}")
+    | .error f => some (s, "fault:" ++ f.name)
+  | ["wc", hx] => do
+    let bs ← parseHex hx
+    let (s1, ok) := writeChars s (bs.map toByte)
+    some (s1, s!"wc={b01 ok}")
+  | ["rc", n] => do
+    let n ← n.toNat?
+    if n > 64 then none else
+    let (s1, r) := readChars s n
+    some (s1, s!"rc={optBytes r}")
+  | ["p"] => let (s1, r) := s.peekB; some (s1, s!"p={optCh (r.map Fin.val)}")
+  | ["c"] => some (s.clear, "c")
+  | _ => none
+
+def bstLine (steps : List String) : Option String := do
+  let (s, outs) ← steps.foldlM (fun (acc : BStream × List String) step => do
+    let (s, o) ← bstStep acc.1 step
+    some (s, s!"{o} {stBits s}" :: acc.2)) (({} : BStream), [])
+  some s!"{";".intercalate outs.reverse}|rest={bytesHex s.buf}"
 
 /-! ### UTF-8 part -/
-
-def whexOf (l : List Nat) : String :=
-  if l.isEmpty then "-" else String.join (l.map fun c => String.join ((List.range 4).reverse.map fun i => hexByte (c / 256 ^ i % 256)))
-
-def group4 : List Nat → Option (List Nat)
-  | [] => some []
-  | a :: b :: c :: d :: r => (group4 r).map (fun t => ((((a * 256 + b) * 256 + c) * 256 + d) :: t))
-  | _ => none
-
-def parseWhex (s : String) : Option (List Nat) := (parseHex s).bind group4
 
 def resName : CvtResult → String
   | .ok => "ok" | .part => "partial" | .error => "error" | .noconv => "noconv"
@@ -243,6 +460,27 @@ def nwLine (ws : List Nat) : String :=
 
 def nwsDigest (lo n : Nat) : String :=
   let h := (List.range n).foldl (fun h (i : Nat) => fnv h (nwLine [lo + i])) fnvInit
+  "D " ++ hex64 h
+
+def parseDir (d : String) : Option Bool := if d = "out" then some true else if d = "in" then some false else none
+
+def parseToy (f m c : String) : Option Toy := do
+  let f ← f.toNat?; let m ← m.toNat?; let c ← c.toNat?
+  if f < 16 ∧ m ≤ 8 ∧ c ≤ 8 then some { stash := f % 2 = 1, okFull := f / 2 % 2 = 1, okLeft := f / 4 % 2 = 1, maxLen := m, chunk := c }
+  else none
+
+def toyLine (p : Toy) (wide : Bool) (inp : List Nat) : String :=
+  optHex (if wide then hexOf else whexOf) "none" (toyCodecvt p wide inp)
+
+def toyAlphabet : List Nat := [0x01, 0x02, 0x03, 0x0F, 0xEE, 0xFD]
+
+/-- the `i`-th string of length `len` over the alphabet: the base-6 digits of `i`, most significant first -/
+def toyInput (len i : Nat) : List Nat :=
+  (List.range len).map fun k => toyAlphabet.getD (i / 6 ^ (len - 1 - k) % 6) 0
+
+def toysDigest (p : Toy) (wide : Bool) (maxLen : Nat) : String :=
+  let h := (List.range (maxLen + 1)).foldl (fun h len =>
+    (List.range (6 ^ len)).foldl (fun h i => fnv h (toyLine p wide (toyInput len i))) h) fnvInit
   "D " ++ hex64 h
 
 def handleUtf (toks : List String) : Option String :=
@@ -274,6 +512,27 @@ def handleUtf (toks : List String) : Option String :=
   | ["nws", lo, n] => do
     let lo ← lo.toNat?; let n ← n.toNat?
     if n = 0 ∨ lo + n > 2 ^ 32 then none else some (nwsDigest lo n)
+  | ["nwlong", pat, n] => do
+    let pat ← parseWhex pat; let n ← n.toNat?
+    if pat.isEmpty ∨ n = 0 ∨ pat.length * n > 200000 then none else
+    let ws := (List.replicate n pat).flatten
+    match narrowLocale ws with
+    | .ok (some bs) =>
+      let w := match widenLocale bs with
+        | .ok (some back) => s!"w=some len={back.length} eq={b01 (back == ws)}"
+        | .ok none => "w=exc"
+        | .error e => "fault:" ++ e.name
+      some s!"n=some len={bs.length} h={hex64 (fnv fnvInit (hexOf bs))} {w}"
+    | .ok none => some "n=none"
+    | .error e => some ("fault:" ++ e.name)
+  | ["toy", d, f, m, c, inp] => do
+    let wide ← parseDir d; let p ← parseToy f m c
+    let inp ← (if wide then parseWhex inp else parseHex inp)
+    some (toyLine p wide inp)
+  | ["toys", d, f, m, c, l] => do
+    let wide ← parseDir d; let p ← parseToy f m c; let l ← l.toNat?
+    if l > 6 then none else some (toysDigest p wide l)
+  | ["bst", steps] => bstLine (steps.splitOn ",")
   | _ => none
 
 def handle (toks : List String) : String :=
